@@ -209,7 +209,7 @@ Definition flow_output (f : fargs) (stdin : option (option zerv)) (now : N) : ou
     match g_output_format (f_base f) with
     | OutSemver => OOk (pre ++ semver_print (semver_of_zerv z))
     | OutPep440 => match pep_of_zerv z with Some p => OOk (pre ++ pep_print p) | None => OPanic end
-    | OutZerv => OErr
+    | OutZerv => OOk (zerv_ron z)
     end
   | OErr => OErr
   | OPanic => OPanic
